@@ -115,6 +115,7 @@ def run(F, R, ctx):
     reinstate_rule(F, R)
     bulk_discard_rule(F, R)
     pop_count_rule(F, R)
+    pop_count_guard_rule(F, R)
     wind_rules(F, R)
 
     # close_marks itself must upgrade the weak mark and close it
@@ -486,3 +487,50 @@ def pop_count_rule(F, R):
                    "callback's result and the caller's frame is left on the frame stack" % (fn.short(), b["line"]),
                    fn.loc(b["line"]), sample=True)
     R.floor("C08.g", "frames pushed back after a pop", n, 2)
+
+
+def pop_count_guard_rule(F, R):
+    from . import c07
+    R.rule("C08.h", "a loop that pops frames while counting down VmCore.pop_count stops at zero (sibling agreement between the "
+                    "frame-popping loops): wherever a frame pop lies on a cycle together with a decrement of pop_count, the "
+                    "decrement is dominated, inside the loop, by a test of pop_count (== 0 / != 0 / > 0). pop_count counts the "
+                    "frames of the *current* dispatch loop only; a nested run (a callback of a native higher-order procedure) "
+                    "shares the frame stack with its callers, so a loop that pops towards a frame of an outer run without the "
+                    "test drives the counter below zero (arithmetic-overflow panic in debug builds, a wrapped counter otherwise)")
+    n = 0
+    for name, fn in sorted(F.fns.items()):
+        if not name.startswith("steel::steel_vm::"):
+            continue
+        pops = [p for p in frame_pops(fn) if p in fn.reachable_from(fn.succ(p))]
+        if not pops:
+            continue
+        decs = [i for i, blk in enumerate(fn.blocks) if not blk.get("c") for e in blk["e"]
+                if e[0] == "binop" and e[1].startswith("Sub") and "pop_count" in str(e[5])]
+        maps = None
+        for d in decs:
+            loop = [p for p in pops if d in fn.reachable_from(fn.succ(p)) and p in fn.reachable_from(fn.succ(d))]
+            if not loop:
+                continue
+            n += 1
+            if maps is None:
+                maps = c07._backward(fn)
+            dom = fn.dominators()
+            ok = False
+            for sb in dom[d]:
+                if not any(sb in fn.reachable_from(fn.succ(p)) for p in loop):
+                    continue  # before the loop
+                blk = fn.blocks[sb]
+                if blk["k"] != "switch":
+                    continue
+                loc = re.match(r"_\d+", blk.get("place", "").strip("()*"))
+                if not loc:
+                    continue
+                org = c07._origins(fn, loc.group(0), maps) | {loc.group(0)}
+                if any(e[0] == "mv" and e[1] in org and "pop_count" in e[2] for bb in fn.blocks for e in bb["e"]):
+                    ok = True
+            R.inst("C08.h", "%s / pop_count is tested before it is counted down in the frame-popping loop" % fn.short(), ok,
+                   "%s pops frames in a loop and decrements pop_count for each without testing it: when the target frame "
+                   "belongs to an outer dispatch loop — a continuation captured outside a transducer / stream / sort callback "
+                   "and invoked from inside it — the counter underflows" % fn.short(), fn.loc(fn.blocks[d].get("line")),
+                   sample=True)
+    R.floor("C08.h", "frame-popping loops that count pop_count down", n, 3)
